@@ -272,6 +272,10 @@ def json_value_shape(types, struct, val):
         return ("lit", val[1:-1])
     if re.fullmatch(r"-?\d+(\.\d+)?", val):
         return ("num",)
+    if types is None:
+        if re.fullmatch(r"format!\(.*\)", val, re.S) or re.fullmatch(r"\w+", val) or re.fullmatch(r"\w+\.to_string\(\)", val):
+            return ("str",)          # main.rs error document: the members are message strings
+        raise ParseError(f"{struct}: unsupported json! value {val[:60]!r}")
     m = re.fullmatch(r"self\.(\w+)", val)
     if m:
         ft = types.field_type(struct, m.group(1))
@@ -349,6 +353,8 @@ GUARDS = {
     "match output: OutputFormat::Summary": [("json", False)],
     "match output: OutputFormat::Summary if quiet": [("json", False), ("quiet", True)],
     "!quiet": [("quiet", False)],
+    "json": [("json", True)],                       # only with `let json = output == OutputFormat::Json;` (checked)
+    "!quiet && !json": [("quiet", False), ("json", False)],
     "quiet": [("quiet", True)],
     "dry_run": [("dryRun", True)],
     "!yes": [("yes", False)],
@@ -399,6 +405,11 @@ def classify_payload(ev, fn_src, result_types, where):
         if var not in result_types:
             raise ParseError(f"{where}: type of `{var}` unknown")
         return [([], ("jsonOf" if kind == "json" else "summaryOf", result_types[var]))]
+    dm = re.fullmatch(r"serde_json::to_string(_pretty)?\s*\(\s*&\s*(\w+)\s*\)\s*\??", rest)
+    if dm:
+        if dm.group(2) not in result_types:
+            raise ParseError(f"{where}: type of `{dm.group(2)}` unknown")
+        return [([], ("pretty", result_types[dm.group(2)]))]
     if re.fullmatch(r"\w+", rest):
         var = rest
         # defined by `let var = match output { Json => x.format_json(), Summary => x.format_summary() };`
@@ -456,6 +467,9 @@ def handler_events(repo, file_rel, fn_name):
         if re.fullmatch(r"[A-Z]\w*Result", m.group(2)):
             result_types[m.group(1)] = m.group(2)
     evs = _rs.events(src, b, bo + 1, bc, calls=OPERATIONS)
+    if any(t == "json" or "!json" in t for ev in evs for t, _ in ev["guard"]) and \
+            not re.search(r"let\s+json\s*=\s*output\s*==\s*OutputFormat::Json\s*;", fn_src):
+        raise ParseError(f"{where}: a condition mentions `json`, which is not `let json = output == OutputFormat::Json;`")
     out = []
     site = 0
     for ev in evs:
@@ -619,26 +633,81 @@ def parse_main(repo):
         if not needles or "&&" in cond:
             raise ParseError(f"main.rs: unsupported exit condition {norm(cond)!r}")
         rules.append((needles, int(code)))
+    # the error-document emitter, if main.rs has one:
+    #   fn emit_json_error(json_output: bool, message: &str) { if json_output { println!("{}", serde_json::json!({…})); } }
+    EMIT = "emit_json_error"
+    emitter = None
+    if re.search(r"\bfn\s+" + EMIT + r"\b", b):
+        eps, _, eo, ec = _rs.find_fn(src, b, EMIT)
+        eevs = [e for e in _rs.events(src, b, eo + 1, ec) if e["kind"] in ("out", "exit", "fail", "ret")]
+        if len(eevs) != 1 or eevs[0]["kind"] != "out" or [t for t, p in eevs[0]["guard"] if p] != [eps[0][0]] or not eevs[0]["newline"]:
+            raise ParseError(f"main.rs: {EMIT} is not `if <first parameter> {{ println!(…) }}`: {eevs}")
+        am = re.fullmatch(r'"\{\}"\s*,\s*(?:serde_json::)?json!\s*\((\{.*\})\s*\)\s*,?', eevs[0]["args"], re.S)
+        if not am:
+            raise ParseError(f"main.rs: {EMIT} does not print a json! literal: {eevs[0]['args'][:80]!r}")
+        lit = am.group(1)
+        lb = _rs.blank(lit)
+        emitter = {"shape": json_macro_shape(None, EMIT, lit, lb, 0, _rs.match_close(lb, 0)), "flag_param": eps[0][0]}
+        # the flag every call site passes must be `--output json` of the parsed command line
+        if not re.search(r"let\s+json_output\s*=\s*wants_json\s*\(\s*&\s*cli\.command\s*\)\s*;", src[bo:mo]):
+            raise ParseError("main.rs: `let json_output = wants_json(&cli.command);` not found before the dispatch")
+        _, _, wo, wc = _rs.find_fn(src, b, "wants_json")
+        wtext = norm(src[wo:wc])
+        for Cap in (c.capitalize() for c in COMMANDS):
+            if not re.search(r"Commands::" + Cap + r"\s*\{\s*output:\s*OutputFormat::Json\s*,?\s*(?:\.\.)?\s*,?\s*\}", wtext):
+                raise ParseError(f"main.rs: wants_json does not test `output: OutputFormat::Json` of Commands::{Cap}")
+
+    def with_emit_flags(evs, label, keep_guard):
+        """(fn, code, guards, preceded by emit_json_error(json_output, …) under the same conditions) for every exit"""
+        res, last_call = [], None
+        for ev in evs:
+            if ev["kind"] == "call" and ev["name"] == EMIT:
+                last_call = ev
+            elif ev["kind"] == "exit":
+                flagged = bool(last_call) and last_call["guard"] == ev["guard"]
+                if flagged:
+                    arg0 = norm(src[last_call["pos"]:last_call["pos"] + 200]).split("(", 1)[1].split(",", 1)[0].strip()
+                    if arg0 != "json_output":
+                        raise ParseError(f"main.rs: {EMIT} is called with {arg0!r} instead of json_output")
+                res.append((label, ev["code"], keep_guard([t for t, _ in ev["guard"]]), flagged))
+                last_call = None
+        return res
+    calls = (EMIT,) if emitter else ()
     # exits before the dispatch (in main and in the init helpers it calls)
-    pre = []
-    for ev in _rs.events(src, b, bo + 1, mo):
-        if ev["kind"] == "exit":
-            pre.append(("main", ev["code"], [t for t, _ in ev["guard"]]))
+    pre_evs = _rs.events(src, b, bo + 1, mo, calls=calls)
+    for ev in pre_evs:
         if ev["kind"] == "out":
             raise ParseError("main.rs: stdout emission before the dispatch")
+    pre = with_emit_flags(pre_evs, "main", lambda g: g)
     helper_out = {}
     for fn in ("check_and_auto_init", "do_init", "prompt_for_init_with_input", "prompt_for_init", "is_renamify_ignored",
                "find_git_dir", "get_global_excludes_path", "is_in_git_repo", "is_file_tracked"):
         _, _, ho, hc = _rs.find_fn(src, b, fn)
-        evs = _rs.events(src, b, ho + 1, hc)
+        evs = _rs.events(src, b, ho + 1, hc, calls=calls)
         helper_out[fn] = len([e for e in evs if e["kind"] == "out"])
-        for ev in evs:
-            if ev["kind"] == "exit":
-                pre.append((fn, ev["code"], [t for t, _ in ev["guard"]][-1:]))
+        pre += with_emit_flags(evs, fn, lambda g: g[-1:])
+    err_arm_doc = False
+    if emitter:
+        ecalls = [e for e in _rs.events(src, b, rm.start(), rc + 1, calls=calls) if e["kind"] == "call" and e["name"] == EMIT]
+        in_err = [e for e in ecalls if [t for t, _ in e["guard"]] == ["match result: Err(e)"]]
+        if len(ecalls) != len(in_err) or len(in_err) > 1:
+            raise ParseError(f"main.rs: {EMIT} is called in `match result` other than once, unconditionally, in the Err arm")
+        err_arm_doc = len(in_err) == 1
+        if err_arm_doc and "json_output" not in norm(src[in_err[0]["pos"]:in_err[0]["pos"] + 60]).split(",")[0]:
+            raise ParseError(f"main.rs: the Err arm does not pass json_output to {EMIT}")
+    # clap rejecting the argv: `Cli::parse()` exits by itself; `Cli::try_parse().unwrap_or_else(|e| { … emit_json_error(…) … e.exit() })`
+    # may print the error document first
+    clap_doc = False
+    cm = re.compile(r"Cli::try_parse\(\)\s*\.unwrap_or_else\s*\(").search(b, bo, mo)
+    if cm:
+        cc = _rs.match_close(b, cm.end() - 1)
+        clap_doc = bool(emitter) and EMIT + "(" in re.sub(r"\s+", "", src[cm.end():cc]) and "e.exit()" in re.sub(r"\s+", "", src[cm.end():cc])
+    elif not re.compile(r"Cli::parse\(\)").search(b, bo, mo):
+        raise ParseError("main.rs: neither Cli::parse() nor Cli::try_parse().unwrap_or_else(…) found")
     return {"dispatch": dispatch, "ok_code": plain[0], "ok_interrupted": ok_interrupted, "ok_arm_stdout": ok_out,
             "rules": rules, "default": int(dm.group(1)),
             "err_arm_stdout": len(err_out), "err_arm_stderr": len(err_err), "pre_exits": pre,
-            "helper_stdout": helper_out}
+            "helper_stdout": helper_out, "emitter": emitter, "err_arm_doc": err_arm_doc, "clap_doc": clap_doc}
 
 
 def core_stdout_sites(repo):
@@ -792,6 +861,8 @@ def run():
     L += [f"  ({nm(n)}, {lean_shape(x['types'][n])})" + ("," if i + 1 < len(names) else "") for i, n in enumerate(names)]
     L += ["]", "", "/-- the document `T::format_json()` builds (from the `json!` literal, or T's own serde shape) -/",
           "def formatJsonShapes : List (Name × JsonShape) := ["]
+    if x["main"]["emitter"]:
+        x["format_json"]["main::emit_json_error"] = (x["main"]["emitter"]["shape"], "json! in main.rs::emit_json_error, printed if --output json")
     fj = sorted(x["format_json"])
     L += [f"  ({nm(n)}, {lean_shape(x['format_json'][n][0])})" + ("," if i + 1 < len(fj) else "") + f"  -- {x['format_json'][n][1]}"
           for i, n in enumerate(fj)]
@@ -827,11 +898,17 @@ def run():
           f"def exitDefault : Nat := {m['default']}",
           f"def errArmStdoutSites : Nat := {m['err_arm_stdout']}",
           f"def errArmStderrSites : Nat := {m['err_arm_stderr']}",
+          "/-- the Err arm calls `emit_json_error(json_output, …)`: under --output json a failing command prints the error document",
+          "    `main::emit_json_error` (see formatJsonShapes) on stdout, besides the message on stderr -/",
+          f"def errArmJsonDoc : Bool := {'true' if m['err_arm_doc'] else 'false'}",
+          "/-- clap's rejection of the argv goes through `Cli::try_parse().unwrap_or_else(|e| { … emit_json_error(…) … e.exit() })` -/",
+          f"def clapErrorJsonDoc : Bool := {'true' if m['clap_doc'] else 'false'}",
           "",
-          "/-- `process::exit` sites reached before the dispatch: (fn, code text, innermost guard text) -/",
-          "def preDispatchExits : List (Name × Name × List Name) := ["]
-    L += [f"  ({nm(fn)}, {nm(code)}, [" + ", ".join(nm(g[:60]) for g in guards) + "])" + ("," if i + 1 < len(m["pre_exits"]) else "")
-          for i, (fn, code, guards) in enumerate(m["pre_exits"])]
+          "/-- `process::exit` sites reached before the dispatch: (fn, code text, innermost guard text, the exit is preceded by",
+          "    `emit_json_error(json_output, …)` under the same conditions) -/",
+          "def preDispatchExits : List (Name × Name × List Name × Bool) := ["]
+    L += [f"  ({nm(fn)}, {nm(code)}, [" + ", ".join(nm(g[:60]) for g in guards) + f"], {'true' if fl else 'false'})"
+          + ("," if i + 1 < len(m["pre_exits"]) else "") for i, (fn, code, guards, fl) in enumerate(m["pre_exits"])]
     L += ["]", "", "/-- stdout emission sites in main's init helpers (all their messages go to stderr) -/",
           "def initHelperStdoutSites : List (Name × Nat) := [" + ", ".join(
               f"({nm(k)}, {v})" for k, v in sorted(m["helper_stdout"].items())) + "]",
